@@ -155,7 +155,7 @@ def n_out(op, impl):
     if op in "DI":
         return 2 if impl else 1
     if op == "R":
-        return 2
+        return 3
     return 1
 
 
@@ -213,11 +213,14 @@ def oracle_case(ops, groups, pyref=None):
             if g[1].startswith("G MISMATCH"):
                 return "ranlux: stream differs from gsl_rng_ranlxd2 in %r: %s" % (o, g[1])
         if f[0] == "R":
-            w = g[0].split()[2:]
-            t = g[1].split()[1:]
-            # the restored object must be the saved one: compare the object after with the stream that gsl continues (G lines)
-            if len(t) != 17:
-                return "restart: restored state unreadable"
+            before = g[0].split()[1:]
+            after = g[2].split()[1:]
+            names = ["_xdbl[%d]" % i for i in range(12)] + ["_carry", "_ir", "_jr", "_ir_old", "_pr"]
+            if len(before) != 17 or len(after) != 17:
+                return "restart: state unreadable"
+            for nm, a, b in zip(names, before, after):
+                if a != b:
+                    return "restart: the generator restored from the restart file differs from the saved one in %s (saved %s, restored %s)" % (nm, a, b)
     if pyref is not None:
         want, _ = ref_stream(pyref, len(drawn))
         for j, (a, b) in enumerate(zip(drawn, want)):
@@ -266,6 +269,13 @@ def run(ck):
         r = rng.below(10)
         s = 1 + rng.below(P31 - 1) if r < 8 else (rng.next() >> 1 if r == 8 else -(rng.next() >> 2))
         cases.append(gen_seed_case(rng, s, total)); kinds.append("seed"); pyrefs.append(None); seeds.append(s)
+    # witness of C13_step_injective_refuted: (x[0], carry) = (5,0) and (4,1), everything else equal -> same successor
+    wit = []
+    for x0, c in ((5, 0), (4, 1)):
+        x = [x0, 0, 0, 0, 0, 0, 0, 9, 0, 0, 0, 0]
+        wit.append(len(cases))
+        cases.append(["X " + " ".join(hexd(a) for a in x) + " %s 11 7 0 12" % hexd(c), "D 12", "T", "D 30"])
+        kinds.append("state"); pyrefs.append((x, c, 11, 7, 0, 12)); seeds.append(None)
     for i in range(nstates):
         c, st = gen_state_case(rng, i, 60 if i % 3 else 150)
         cases.append(c); kinds.append("state"); pyrefs.append(st); seeds.append(None)
@@ -380,6 +390,11 @@ def run(ck):
                 else:
                     byidx[idx] = (head_of(gi[ci]), seeds[ci])
                     ndiff += 1
+        a, b = gi[wit[0]], gi[wit[1]]
+        same = len(a) == 4 and len(b) == 4 and a[0] != b[0] and a[1:] == b[1:] and bool(a[1])
+        cov["step_not_injective_witness_reproduced_on_real_class"] = same
+        if not same:
+            ck.breaks.append("witness of C13_step_injective_refuted (two different states, one successor) does not reproduce on the real class")
         cov["distinct_seed_indices_with_pairwise_distinct_first_24_values"] = ndiff
         cov["seed_pairs_equal_modulo_2^31_compared"] = nsame
         bad = 0
@@ -399,8 +414,11 @@ def run(ck):
         "uint_fast32_t/int_fast32_t/double are 8 bytes (the harness prints the sizes and the run compares them)",
         "gsl 2.7.1 masks the seed with 0xffffffff into an int, so seeds with bit 31 set are outside gsl's domain; the three-way comparison runs for every "
         "seed with bit 31 clear (all of [0,2^31)) and for overwritten states through gsl's state struct (layout checked with gsl_rng_size)",
-        "'different seeds give different streams' is proved as: the 2^31-1 seeds in [1,2^31) give pairwise different streams already within the first 24 "
-        "values (C13_streams_differ); seed 0 gives the stream of seed 1 and seeds are used modulo 2^31 by the code, so those coincide by construction",
+        "'different seeds give different streams' is proved at full strength on the domain where it can hold: the 2^31-1 seeds in [1,2^31) give pairwise "
+        "different streams already within the first 24 values (C13_streams_differ); seed 0 gives the stream of seed 1 and the code uses seeds modulo 2^31 "
+        "(C13_seed_zero_is_one, C13_seed_mod_2_31), so those coincide by construction; seeds that are non-zero multiples of 2^31 (possible because "
+        "int_fast32_t is 64 bit) start from the all-ones state 1-2^-48 in every word (Example ex_degenerate_seed) - a valid but poor stream",
+        "the design sketch's step_injective is false (C13_step_injective_refuted: two well-formed states with one successor); nothing depends on it",
     ]
     ck.resolve_breaks_without_input()
 
